@@ -12,8 +12,12 @@ import (
 
 func Run(o *drv.Out) {
 	chains, blocks := 150, 12
-	if o.Tier == "thorough" || o.Search {
+	if o.Tier == "thorough" {
 		chains, blocks = 1200, 20
+	} else if o.Search {
+		// an obligation broke and the first pass found no failing input: three more seeds of about 2.5x the quick
+		// size each (the full thorough size made the search phase take several minutes)
+		chains, blocks = 360, 14
 	}
 	ledger.Scenarios(o, "C12")
 	for i := 0; i < chains; i++ {
